@@ -157,3 +157,52 @@ PROPS["C16"] = {
          "thorough": {"shards": 16, "checks": 600000, "cap": 7200}},
     ],
 }
+
+PROPS["C03"] = {
+    "level": "exploration",
+    "rule": ("bubble: generated DAG (2-40 nodes; random, chain, repeated diamonds, fan-in/out, complete-bipartite layers), selection closed under dependencies, num_workers 1-8, per-node virtual latency from {0,1,2,3,10 ms}; "
+             "the real dag.Walker drives the real TaskWorkerPool inside a testing/synctest bubble, so completion order is a function of the generated latencies. Every command start must come after a successful end of each transitive dependency, "
+             "at most one start per node, running commands <= num_workers at every prefix of the event log, unselected nodes never run, finished nodes are marked completed. race: the same on the real scheduler under the race detector with zero/microsecond latencies and GOMAXPROCS in {1,2,4,16}. "
+             "Non-trivial = some selected node joins >=2 dependencies with different latencies AND num_workers is below the width of some layer; distinct by full case."),
+    "assumptions": [
+        "interleavings between goroutines at the same virtual instant are the Go scheduler's choice: sampled (also under -race), not enumerated",
+        "start/end events are logged inside the task, so the running count is a lower bound of true concurrency (cannot raise a false alarm)",
+    ],
+    "nt_floor": 0.05,
+    "parts": [
+        {"name": "bubble", "pkg": "c03", "test": "TestBubble",
+         "quick": {"shards": 8, "checks": 4000, "cap": 900},
+         "thorough": {"shards": 16, "checks": 80000, "cap": 7200}},
+        {"name": "race", "pkg": "c03", "test": "TestRace", "race": True,
+         "quick": {"shards": 4, "checks": 400, "cap": 900},
+         "thorough": {"shards": 8, "checks": 6000, "cap": 7200}},
+    ],
+}
+
+PROPS["C04"] = {
+    "level": "fault_enumeration",
+    "rule": ("bubble: C03's generator plus failing subsets (10% per node), fail-fast on/off, optional external cancel at a generated virtual time, mostly-zero latencies, 5% of cases with up to 4000 nodes; Walk must return (a hang is a synctest deadlock report), "
+             "completions only for selected nodes, and in keep-going mode without cancel every selected node is succeeded, failed or downstream of a failure. race: keep-going failure patterns on the real scheduler under -race (up to 3000 nodes), the returned completion map is iterated immediately like RunBuild does; stress: all patterns incl. fail-fast and cancel on the real scheduler without the race detector. "
+             "restore-faults: outputs (flat directory, generated trees, file outputs) cached through the real registry; for EVERY cache blob x {deleted, truncated, emptied}, up to 40 pairs of deletions and 'all deleted', LoadOutputs under a 30 s watchdog must return. "
+             "Non-trivial = bubble/race: a selected failure with a selected dependant, or a cancel, or >=1000 zero-latency nodes; restore-faults: >=2 blobs; distinct by full case."),
+    "assumptions": [
+        "goroutines left blocked after Walk has returned are not violations (the process exits)",
+        "the only wall-clock oracles are 90 s (real-scheduler walk) and 30 s (restore) watchdogs on operations that take milliseconds",
+        "whole-process behaviour (exit status, no crash dump) under failures and cache faults is observed through the real binary by the history checks",
+    ],
+    "nt_floor": 0.2,
+    "parts": [
+        {"name": "bubble", "pkg": "c04", "test": "TestBubble",
+         "quick": {"shards": 8, "checks": 1600, "cap": 900},
+         "thorough": {"shards": 16, "checks": 40000, "cap": 7200}},
+        {"name": "race", "pkg": "c04", "test": "TestRace", "race": True,
+         "quick": {"shards": 4, "checks": 300, "cap": 900},
+         "thorough": {"shards": 8, "checks": 4000, "cap": 7200}},
+        {"name": "stress", "pkg": "c04", "test": "TestStress",
+         "quick": {"shards": 4, "checks": 600, "cap": 900},
+         "thorough": {"shards": 8, "checks": 20000, "cap": 7200}},
+        {"name": "restore-faults", "pkg": "c04", "test": "TestRestoreFaults",
+         "quick": {"shards": 4, "checks": 60, "cap": 900},
+         "thorough": {"shards": 8, "checks": 1500, "cap": 7200}},
+    ],
+}
